@@ -497,3 +497,34 @@ func (m *Model) ParentOf(x string) (string, bool) {
 	}
 	return cs.chainParent(x), false
 }
+
+// LockInfo counts the stored locks targeting x and how many of them are live (under the
+// resolution that assumes no unsure mark is set).
+func (m *Model) LockInfo(x string) (stored, live int) {
+	cs := &m.C[ByName[x].Cnr]
+	v := &view{m: m, cs: cs, assume: map[string]bool{}}
+	for _, l := range Specs {
+		if l.Kind != KLock || l.Target != x || cs.Objs[l.Name] == nil {
+			continue
+		}
+		stored++
+		if !v.expired(l.Name) && !v.tombstoned(l.Name) && !v.markedDefault(l.Name) {
+			live++
+		}
+	}
+	return
+}
+
+// OwnStatus is the status of x by its own marks/tombstones/expiry/locks, without inheritance.
+func (m *Model) OwnStatus(x string) St {
+	s := ByName[x]
+	cs := &m.C[s.Cnr]
+	if cs.Removed {
+		return NotFound
+	}
+	var r St
+	for _, a := range m.resolutions(s.Cnr) {
+		r |= (&view{m: m, cs: cs, assume: a}).own(x)
+	}
+	return r
+}
